@@ -64,6 +64,8 @@ pub struct DapClient {
     pub pending_events: VecDeque<Value>,
     pub timeout: Duration,
     pub dead: bool,
+    /// while set the reader sub-task reads nothing: the client's receive buffer fills up
+    deaf: std::sync::Arc<std::sync::atomic::AtomicBool>,
 }
 
 impl DapClient {
@@ -74,10 +76,19 @@ impl DapClient {
                 Ok(stream) => {
                     let (tx, rx) = chan::unbounded::<Value>();
                     let rs = stream.clone();
+                    let deaf = std::sync::Arc::new(std::sync::atomic::AtomicBool::new(false));
+                    let deaf2 = deaf.clone();
                     // reader sub-task: frames -> channel
                     let _ = shuttle::thread::Builder::new().name("dap-client-reader".into()).spawn(move || {
                         let mut br = BufReader::new(rs);
-                        while let Ok(Some(v)) = read_frame(&mut br) {
+                        loop {
+                            while deaf2.load(std::sync::atomic::Ordering::SeqCst) {
+                                clock::sleep(Duration::from_millis(20));
+                            }
+                            let v = match read_frame(&mut br) {
+                                Ok(Some(v)) => v,
+                                _ => break,
+                            };
                             if tx.send(v).is_err() {
                                 break;
                             }
@@ -91,6 +102,7 @@ impl DapClient {
                         pending_events: VecDeque::new(),
                         timeout: Duration::from_secs(20),
                         dead: false,
+                        deaf,
                     });
                 }
                 Err(_) => clock::sleep(Duration::from_millis(10)),
@@ -192,6 +204,25 @@ impl DapClient {
                 self.pending_events.push_back(v);
             }
         }
+    }
+
+    /// A debugger that stops reading and keeps asking: `n` requests written by a task of its own (it blocks
+    /// for good once the buffers between the two processes are full).
+    pub fn flood_without_reading(&mut self, n: usize) {
+        hist("dap", "flood_without_reading", json!({ "requests": n }));
+        self.deaf.store(true, std::sync::atomic::Ordering::SeqCst);
+        let ws = self.stream.clone();
+        let first = self.seq + 1;
+        self.seq += n;
+        let _ = shuttle::thread::Builder::new().name("dap-client-flooder".into()).spawn(move || {
+            for i in 0..n {
+                let msg = json!({"type": "request", "seq": first + i, "command": "threads"});
+                let mut w = &ws;
+                if write_frame(&mut w, &msg).is_err() {
+                    break;
+                }
+            }
+        });
     }
 
     pub fn last_seq(&self) -> usize {
